@@ -91,12 +91,14 @@ def _map_labels(
     Returns:
         np.ndarray: Returns a copy of the remapped array
     """
-    k = np.array(list(label_map.keys()), dtype=arr.dtype)
-    v = np.array(list(label_map.values()), dtype=arr.dtype)
+    k = [int(i) for i in label_map.keys()]
+    v = [int(i) for i in label_map.values()]
 
-    max_value = max(arr.max(), max(k), max(v)) + 1
+    max_value = max(int(arr.max()), max(k), max(v)) + 1
 
-    mapping_ar = np.arange(max_value, dtype=arr.dtype)
+    # new labels may exceed the range of the input dtype (e.g. fresh labels past 255 in uint8), so widen if necessary
+    dtype = np.promote_types(arr.dtype, np.min_scalar_type(max_value - 1))
+    mapping_ar = np.arange(max_value, dtype=dtype)
     mapping_ar[k] = v
     return mapping_ar[arr]
 
